@@ -1128,19 +1128,19 @@ fn main() {
     let threads = run.scale(8, 16);
     let mut rng = SplitMix64::new(run.seed ^ 0xC29);
 
-    let n_store = run.scale(10_000, 100_000);
+    let n_store = run.scale(8_000, 100_000);
     let cases: Vec<Case> = (0..n_store).map(|_| gen_case(&mut rng, "store")).collect();
     run.drive_enum_par("store_ops", cases, threads, |c| judge(&run, c));
 
-    let n_builder = run.scale(1500, 16_000);
+    let n_builder = run.scale(1200, 16_000);
     let cases: Vec<Case> = (0..n_builder).map(|_| gen_case(&mut rng, "builder")).collect();
     run.drive_enum_par("builder_ops", cases, threads, |c| judge(&run, c));
 
-    let n_zip = run.scale(400, 5_000);
+    let n_zip = run.scale(300, 5_000);
     let cases: Vec<Case> = (0..n_zip).map(|_| gen_case(&mut rng, "zip")).collect();
     run.drive_enum_par("zip_import", cases, threads, |c| judge(&run, c));
 
-    let n_tf = run.scale(400, 5_000);
+    let n_tf = run.scale(300, 5_000);
     let cases: Vec<Case> = (0..n_tf).map(|_| gen_to_folder(&mut rng)).collect();
     run.drive_enum_par("to_folder", cases, threads, |c| judge(&run, c));
 
